@@ -114,7 +114,8 @@ func (r *DailyRotateRule) OutdatedFiles() []string {
 
 	var buf strings.Builder
 	boundary := time.Now().AddDate(0, 0, -r.days).Format(dateFormat)
-	fmt.Fprintf(&buf, "%s%s%s", r.filename, r.delimiter, boundary)
+	// filepath.Glob 返回的是清理过的路径，边界也要用清理过的文件名，否则字符串比较没有意义
+	fmt.Fprintf(&buf, "%s%s%s", filepath.Clean(r.filename), r.delimiter, boundary)
 	if r.gzip {
 		buf.WriteString(gzipExt)
 	}
